@@ -54,9 +54,11 @@ static std::unique_ptr<cppcms::service> srv;
 static std::unique_ptr<booster::thread> srv_thread;
 static std::unique_ptr<file_server> direct;   // instance for direct calls, same settings
 static int port = 0;
+static bool refused = false;       // the file_server constructor threw for the current configuration
+static std::string refused_what;
 static bool unresponsive = false;  // a request got no reply: the event loop is stuck; do not wait 20 s for each further one
 
-static volatile bool run_failed = false, accepting = false;
+static volatile bool run_failed = false, accepting = false, run_ended = false;
 // run() throws when the port cannot be bound (another process took it between the probe and the bind):
 // before the service accepted its first connection that is a retry with another port; afterwards an
 // exception out of run() is the service dying on a request
@@ -64,6 +66,9 @@ static void run_service()
 {
 	try { srv->run(); }
 	catch(std::exception const &e) {
+		// an asynchronously mounted file server is constructed inside the event loop: its constructor's
+		// exception ends run() - for a configuration the constructor refuses that is the expected outcome
+		if(refused && std::string(e.what()).find("Invalid alias")!=std::string::npos) { run_ended=true; return; }
 		if(!accepting) { run_failed=true; return; }
 		fprintf(stderr,"service::run threw: %s\n",e.what()); abort();
 	}
@@ -133,14 +138,16 @@ static std::string start_service(config const &c)
 			if(port>64000) port=21000;
 		}
 		v["service"]["port"]=port;
-		run_failed=false; accepting=false;
+		run_failed=false; accepting=false; run_ended=false;
 		srv.reset(new cppcms::service(v));
 		if(c.async==2) {
 			// service.cpp mounts create_pool<file_server>() (async_ = false) even for file_server.async=true;
 			// this variant runs the async_file_handler path of main
 			srv->applications_pool().mount(cppcms::create_pool<file_server>(true),cppcms::mount_point(""),cppcms::app::asynchronous);
 		}
-		direct.reset(new file_server(*srv,c.async==2));
+		refused=false;
+		try { direct.reset(new file_server(*srv,c.async==2)); }
+		catch(cppcms::cppcms_error const &e) { direct.reset(); refused=true; refused_what=e.what(); }
 		srv_thread.reset(new booster::thread(run_service));
 		for(int i=0;i<1000 && !run_failed;i++) {
 			// ready = *this* service answers (a foreign listener on the port would also accept a connect)
@@ -149,17 +156,21 @@ static std::string start_service(config const &c)
 				char const rq[]="GET /__c13_probe HTTP/1.0\r\n\r\n";
 				::send(fd,rq,sizeof(rq)-1,MSG_NOSIGNAL);
 				std::string got;
-				for(int k=0;k<30 && !run_failed;k++) {
+				bool eof=false;
+				for(int k=0;k<30 && !run_failed && !run_ended;k++) {
 					struct pollfd p; p.fd=fd; p.events=POLLIN; p.revents=0;
 					if(poll(&p,1,100)>0) {
 						char buf[2048]; ssize_t n=::recv(fd,buf,sizeof(buf),0);
-						if(n<=0) break;
+						if(n<=0) { eof = n==0; break; }
 						got.append(buf,n);
 						if(got.find("CppCMS")!=std::string::npos) break;
 					}
 				}
 				close(fd);
-				if(!run_failed && got.find("CppCMS")!=std::string::npos) { accepting=true; return "ok"; }
+				if(!run_failed && (got.find("CppCMS")!=std::string::npos || (refused && (eof || run_ended || got.find("HTTP/")==0)))) {
+					accepting=true;
+					return refused ? "refused" : "ok";
+				}
 			}
 			usleep(10000);
 		}
@@ -190,10 +201,11 @@ struct oracle {
 		struct stat st;
 		int mode = ::stat(p.c_str(),&st) < 0 ? 0 : int(st.st_mode);
 		{ std::ostringstream ss; ss<<mode; put("S:"+vh::hex(p),ss.str()); }
-		if(children && (mode & S_IFREG)) {
+		if(children && ((mode & S_IFREG) || S_ISCHR(mode))) {
+			// (character devices too: a changed mode test may open them; reads are capped)
 			std::ifstream f(p.c_str(),std::ios_base::binary);
 			if(!f) put("F:"+vh::hex(p),"!");
-			else { std::ostringstream ss; ss<<f.rdbuf(); put("F:"+vh::hex(p),vh::hex(ss.str())); }
+			else { std::string buf(65536,'\0'); f.read(&buf[0],buf.size()); buf.resize(f.gcount()); put("F:"+vh::hex(p),vh::hex(buf)); }
 		}
 		if(children && cur.list && (mode & S_IFDIR)) {
 			DIR *d=opendir(p.c_str());
@@ -269,6 +281,7 @@ static bool http_get(std::string const &target,std::string &reply)
 		if(n<0) { if(errno==EINTR) continue; break; }
 		if(n==0) break;
 		reply.append(buf,n);
+		if(reply.size() > (8u<<20)) break;   // an endless stream (a device served as a file) must not hang the check
 	}
 	close(fd);
 	return true;
@@ -287,6 +300,7 @@ static std::string between(std::string const &s,size_t from,std::string const &a
 
 static std::string summarize(std::string const &reply)
 {
+	if(reply.empty()) return "closed";   // connection closed without any reply
 	size_t he=reply.find("\r\n\r\n");
 	if(reply.compare(0,5,"HTTP/")!=0 || he==std::string::npos) return "garbled "+vh::hex(reply.substr(0,200));
 	std::string head=reply.substr(0,he+2), body=reply.substr(he+4);
@@ -335,7 +349,7 @@ static std::string run(std::vector<std::string> const &w)
 	if(w[0]=="prefix" && w.size()==3 && vh::unhex(w[1],a) && vh::unhex(w[2],b)) {
 		return cppcms::impl::is_file_prefix(a,b) ? "1" : "0";
 	}
-	if(w[0]=="cfg" && w.size()==7) {
+	if(w[0]=="cfg" && w.size()>=7) {   // further words: realpath answers for the configured paths (model only)
 		config c;
 		c.sym=w[1]=="1"; c.list=w[2]=="1"; c.async=atoi(w[3].c_str());
 		if(!vh::unhex(w[4],c.root) || !vh::unhex(w[6],c.index)) return "bad-op";
@@ -351,7 +365,17 @@ static std::string run(std::vector<std::string> const &w)
 		cur=c;
 		return start_service(c);
 	}
-	if(!direct.get()) return "no-config";
+	if(w[0]=="rp" && w.size()==2 && vh::unhex(w[1],a)) {   // libc's answer for a configuration path
+		char buf[PATH_MAX+1];
+		char *r=::realpath(a.c_str(),buf);
+		return r ? vh::hex(std::string(r)) : std::string("!");
+	}
+	if(!srv.get()) return "no-config";
+	if(refused) {
+		if(w[0]=="fs" || w[0]=="fst") return "-";
+		if(w[0]=="cidr") return "refused";
+	}
+	else if(!direct.get()) return "no-config";
 	if(w[0]=="fs" && w.size()==2 && vh::unhex(w[1],a)) { oracle o; o.for_file_name(a); return o.str(); }
 	if(w[0]=="fst" && w.size()==2 && vh::unhex(w[1],a)) { oracle o; o.for_file_name(path_info_of_target(a)); return o.str(); }
 	if(w[0]=="cidr" && w.size()>=2 && vh::unhex(w[1],a)) {
@@ -373,7 +397,13 @@ static std::string run(std::vector<std::string> const &w)
 	if(w[0]=="req" && w.size()>=2 && vh::unhex(w[1],a)) {
 		std::string reply;
 		if(unresponsive) return "no-reply (service unresponsive since an earlier request)";
-		if(!http_get(a,reply)) { unresponsive=true; return "no-reply"; }
+		// the constructor's exception left service::run(): a deployment's process has terminated by now (the
+		// listening socket of this harness process would still queue connections that nobody will ever answer)
+		if(refused && run_ended) return "closed";
+		if(!http_get(a,reply)) {
+			if(refused) return "closed";   // no instance, possibly no event loop any more: nothing is served
+			unresponsive=true; return "no-reply";
+		}
 		return summarize(reply);
 	}
 	return "bad-op";
